@@ -390,8 +390,48 @@ fn chk_no_panic_bytes(data: &[u8]) -> Option<Value> {
     match r { Ok(Some(v)) if v == b"<panic>".to_vec() => Some(hit(json!({"bytes": data}), "result or error".into(), "panic".into(), "sexp_from_stream")), Err(_) => Some(hit(json!({"bytes": data}), "result or error".into(), "panic".into(), "sexp_from_stream")), _ => None }
 }
 
+// ---- C11: library entry point vs command-line tool path compile the same program
+fn chk_entry_points(src: &str, optimize: bool) -> Option<Value> {
+    use chialisp::classic::clvm_tools::clvmc::compile_clvm_text_maybe_opt;
+    use chialisp::classic::clvm_tools::comp_input::RunAndCompileInputData;
+    use chialisp::classic::platform::argparse::ArgumentValue;
+    use chialisp::compiler::clvm::convert_to_clvm_rs;
+    use chialisp::compiler::compiler::DefaultCompilerOpts;
+    use chialisp::compiler::comptypes::CompilerOpts;
+    use std::collections::HashMap;
+    use std::rc::Rc;
+    let src_s = src.to_string();
+    let res = catch_unwind(move || {
+        let mut a = clvmr::Allocator::new();
+        let opts: Rc<dyn CompilerOpts> = Rc::new(DefaultCompilerOpts::new("*command*"));
+        let mut syms = HashMap::new();
+        let lib = compile_clvm_text_maybe_opt(&mut a, optimize, opts, &mut syms, &src_s, "*command*", false).ok()
+            .and_then(|n| clvmr::serde::node_to_bytes(&a, n).ok());
+        let mut args: HashMap<String, ArgumentValue> = HashMap::new();
+        args.insert("path_or_code".to_string(), ArgumentValue::ArgString(None, src_s.clone()));
+        if optimize { args.insert("optimize".to_string(), ArgumentValue::ArgBool(true)); }
+        let tool = RunAndCompileInputData::new(&mut a, &args).ok().and_then(|d| { let mut s2 = HashMap::new(); d.compile_modern(&mut a, &mut s2).ok() })
+            .and_then(|x| convert_to_clvm_rs(&mut a, x).ok()).and_then(|n| clvmr::serde::node_to_bytes(&a, n).ok());
+        (lib, tool)
+    });
+    match res {
+        Ok((l, t)) if l != t => Some(hit(json!({"source": src, "optimize": optimize}), format!("library entry: {:?}", l.map(|b| b.len())), format!("tool path: {:?}", t.map(|b| b.len())), "compile_clvm_text_maybe_opt vs RunAndCompileInputData::compile_modern (byte comparison)")),
+        Err(_) => Some(hit(json!({"source": src}), "no panic".into(), "panic".into(), "entry point panicked")),
+        _ => None,
+    }
+}
+
 pub fn search(name: &str, seed: u64) -> Value {
     match name {
+        "entry_points" => {
+            let bodies = ["(mod (X) (defun f (A) (* A 2)) (f (+ X 1)))", "(mod (X Y) (defun-inline g (A B) (+ A B)) (let ((z (g X Y))) (* z z)))", "(mod (X) (defconstant K 7) (if X (+ K X) K))"];
+            for d in ["*standard-cl-21*", "*standard-cl-22*", "*standard-cl-23*"] { for b in bodies { for o in [false, true] {
+                let src = b.replacen("(mod (", &format!("(mod ("), 1);
+                let src = { let idx = src.find(") ").unwrap(); format!("{} (include {}){}", &src[..idx + 1], d, &src[idx + 1..]) };
+                if let Some(v) = chk_entry_points(&src, o) { return v; }
+            } } }
+            nf("library entry and tool path emit identical bytes for 3 programs x cl21/cl22/cl23 x optimize on/off")
+        }
         "no_panic" => {
             let alpha: &[u8] = b"().\"'\\#;0xa-\n ";
             let n = alpha.len();
@@ -409,7 +449,7 @@ pub fn search(name: &str, seed: u64) -> Value {
             for a in 0u16..=255 { if let Some(v) = chk_no_panic_bytes(&[a as u8]) { return v; } for b in 0u16..=255 { if let Some(v) = chk_no_panic_bytes(&[a as u8, b as u8]) { return v; } } }
             let mut x = seed.wrapping_mul(6364136223846793005).wrapping_add(1442695040888963407);
             for _ in 0..20000 { x = x.wrapping_mul(6364136223846793005).wrapping_add(1442695040888963407); let d = [(x >> 8) as u8, (x >> 24) as u8, (x >> 40) as u8, (x >> 56) as u8]; if let Some(v) = chk_no_panic_bytes(&d[..3 + (x as usize & 1)]) { return v; } }
-            nf(&format!("no panic: parse_sexp and assemble on all {} texts of <= 4 symbols over a 14-symbol alphabet ( ) . " ' \\ # ; 0 x a - newline space; sexp_from_stream on all 1- and 2-byte strings and 20000 seeded 3-4 byte strings", count))
+            nf(&format!("no panic: parse_sexp and assemble on all {} texts of <= 4 symbols over a 14-symbol alphabet (parens dot quotes backslash hash semicolon 0 x a minus newline space); sexp_from_stream on all 1- and 2-byte strings and 20000 seeded 3-4 byte strings", count))
         }
         "modern_print" | "printable" | "escape_quote" | "make_atom" => {
             for d in disasm_inputs() { if let Some(v) = chk_modern_print(&d) { return v; } }
